@@ -84,7 +84,7 @@ _mod('__setitem2__', [('section', T.Str), ('key', T.Str), ('value', T.Str)], lam
      requires=lambda v: [has_sec(v.self, v.section)], note='parser[section][key] = value (KeyError without the section: excluded by the precondition; value must be a string)')
 REG.add(Contract('<ext>', 'RawCP.has_option', params=[('self', T.Obj('RawCP')), ('section', T.Str), ('option', T.Str)], result=T.Bool,
     ensures=lambda v, old, res: [res == opt_has(v.self, v.section, nf(v.option))], external=True,
-    note='has_option(section, option) of _RawConfigParser: own keys of the section, compared by normal form (structural contract in C14/C15); False without the section', props=['C14']))
+    note='has_option(section, option) of _RawConfigParser: own keys of the section, compared by normal form; False without the section -- verified for the implementing class in contracts/rawparser.py (C15)', props=['C14']))
 # ---- the statement as a fold
 def drop_if_empty(S, s): return z3.If(n_opts(S, s) == 0, rem_sec(S, s), S)
 def ov_step(S, o): return z3.If(o_none(o), drop_if_empty(rem_opt(S, o_sec(o), o_key(o)), o_sec(o)), set_opt(S, o_sec(o), o_key(o), o_val(o)))
